@@ -5,6 +5,8 @@ func init() {
 		ID:    "C02",
 		Title: "@if/@elseif/@else renders exactly the first truthy branch",
 		Rules: []string{
+			"R-LOOP (evaluator state): no field of an existing Evaluator is written while evaluating, except counter steps",
+			"R-ERRLAYER: no fault message of the evaluator (a fail constant referenced from package evaluator) is raised by the parser",
 			"R-BODYENTRY: every caller of the block parser, evaluated by cases on an abstract parser (token types as named unknowns), enters it only on a token it has looked at and that is not END / ELSE / ELSE_IF — an empty body is an empty block, not the enclosing construct's closer",
 			"R-DIRMODE: after a bare directive (@else @end @break @continue) the lexer stays in text mode whatever follows; decided by case evaluation of directiveToken per (directive, next character)",
 			"R-TRUTH: the table (operand type -> returned expression) extracted from isTruthy equals the table of C02; the five constructs branch on isTruthy of their evaluated condition and on nothing else",
@@ -17,7 +19,9 @@ func init() {
 		NotDecided:  "TODO",
 		Assumptions: trustedBase,
 		Run: func(m *Model, s *Sink) {
-			m.RunDirMode(s, "R-DIRMODE") // text right after a bare @else / @end / @break / @continue stays text, also when it starts with "("
+			m.RunEvalState(s, "R-LOOP")    // evaluation keeps no flags between constructs
+			m.RunErrLayer(s, "R-ERRLAYER") // evaluation faults are raised by evaluation, not while parsing
+			m.RunDirMode(s, "R-DIRMODE")   // text right after a bare @else / @end / @break / @continue stays text, also when it starts with "("
 			m.RunTruth(s, "R-TRUTH")
 			m.RunTruthUsers(s, "R-TRUTH")
 			m.RunEvalErr(s, "R-EVALERR") // a failing condition / body / sub-expression fails the render instead of being treated as a value
